@@ -115,8 +115,7 @@ def derived_after_overrides(repo, col, R):
 # --------------------------------------------------------------------------------------
 
 
-def _rows(repo, col):
-    R = "R-C10-rows"
+def _rows(repo, col, R="R-C10-rows"):
     # ---- set
     fi = repo.method("Module", "set")
     ex = idx.expander(repo, fi)
@@ -161,18 +160,14 @@ def _rows(repo, col):
     if kv is None:
         raise AnalysisError("Module.data_set: 'indices' entry not found")
     v = kv.args[1]
-    sub = T.find(v, lambda x: x.op == "sub" and x.args[0].op == "ifexp")
     for kc in idx.KCS:
         kind = "nodes" if kc == "node" else "edges"
-        ok = False
-        detail = v.short()
-        if sub is not None:
-            rows_t = _pick(sub.args[0], kc)
-            want_rows = "_nodes_in_view" if kc == "node" else "_edges_in_view"
-            mask = sub.args[1]
-            ok = rows_t is not None and rows_t.op == "attr" and rows_t.name == want_rows and _is_notna_of(mask, kind, None, kc)
+        want_rows = "_nodes_in_view" if kc == "node" else "_edges_in_view"
+        vk = _pick_all(v, kc)  # the term under "key is a node key" / "key is an edge key"
+        sub = T.find(vk, lambda x: x.op == "sub" and x.args[0].op == "attr" and x.args[0].name in ("_nodes_in_view", "_edges_in_view"))
+        ok = sub is not None and sub.args[0].name == want_rows and _is_notna_of(sub.args[1], kind, None, kc)
         col.check(ok, R, fi, f"data_set: rows for a {kc} key = in-view rows where the key is set",
-                  "viewed_inds[not_nan] of the owning table", f"indices are {detail}", node=kv.node or fi.node)
+                  "viewed_inds[not_nan] of the owning table", f"indices are {vk.short(160)}", node=kv.node or fi.node)
 
     # ---- make_trainable
     fi = repo.method("Module", "make_trainable")
@@ -222,18 +217,32 @@ def _pick(t: T, kc: str):
     return t
 
 
+def _pick_all(t: T, kc: str) -> T:
+    """Resolve every key-class conditional inside t to the alternative taken under kc."""
+    if t.op == "ifexp":
+        kt = key_test(t.args[0])
+        if kt is not None:
+            return _pick_all(t.args[1] if (kt[0] == kc) == kt[1] else t.args[2], kc)
+    if not t.args and not t.kw:
+        return t
+    return T(t.op, t.name, [_pick_all(a, kc) for a in t.args], {k: _pick_all(x, kc) for k, x in t.kw.items()}, t.node)
+
+
 def _is_notna_of(mask: T, kind: str, colk, kc=None) -> bool:
-    """mask == ~<own table>[key].isna() (optionally .to_numpy())."""
-    m = mask
+    """mask == ~<own table>[key].isna()  or  <own table>[key].notna()  (optionally .to_numpy())."""
+    m = _pick_all(mask, kc) if kc else mask
     while m.op == "mcall" and m.name in ("to_numpy", "values"):
         m = m.args[0]
-    if not (m.op == "unary" and m.name == "Invert"):
-        return False
-    inner = m.args[0]
-    while inner.op == "mcall" and inner.name in ("to_numpy",):
-        inner = inner.args[0]
-    if not (inner.op == "mcall" and inner.name == "isna"):
-        return False
+    if m.op == "mcall" and m.name in ("notna", "notnull"):
+        inner = m
+    else:
+        if not (m.op == "unary" and m.name == "Invert"):
+            return False
+        inner = m.args[0]
+        while inner.op == "mcall" and inner.name in ("to_numpy",):
+            inner = inner.args[0]
+        if not (inner.op == "mcall" and inner.name in ("isna", "isnull")):
+            return False
     colt = inner.args[0]
     if colt.op != "sub":
         return False
